@@ -137,6 +137,20 @@ double DownhillSimplexMethod::doStep()
     }
   }
 
+  // The step has replaced vertices: bring the ranks up to date. The stop condition reads iHighest_ / iLowest_
+  // after the step and would otherwise compare the *replaced* vertex (whose new value can be anywhere, even next
+  // to the lowest one) with the lowest one, and declare a simplex converged whose values are still far apart.
+  iLowest_ = 0;
+  iHighest_ = 0;
+  for (unsigned int i = 1; i < mpts; i++)
+  {
+    if (y_[i] < y_[iLowest_])
+      iLowest_ = i;
+    if (y_[i] > y_[iHighest_])
+      iHighest_ = i;
+  }
+  getParameters_() = simplex_[iLowest_];
+
   return y_[iLowest_];
 }
 
